@@ -118,6 +118,11 @@ def cfg_simplifications(cfg):
             c[k] = v
         return c
 
+    for key in ("prior", "reuse"):
+        if cfg.get(key):
+            c = copy.deepcopy(cfg)
+            del c[key]
+            yield c
     for key in ("gw", "co2", "ffm", "fm"):
         if cfg.get(key) is not None:
             yield mod(**{key: None})
